@@ -281,6 +281,7 @@ def check(ctx):
         Y_clap(ctx, bin_)
         C08.P_parse(ctx, bin_, floor=3, key_prefix="bin:")
         C10.P_cli(ctx, bin_)      # sorting after an ADF was built relabels the printed statements
+        C08.F_input(ctx, bin_, "bin", 3)
     ctx.cfg = "lib@default"
     lib = ctx.load(facts.Config("lib"))
     C08.A_alphabet(ctx, lib)
